@@ -78,6 +78,50 @@ def run(chk, repo):
            ok, zero[0] if zero else f,
            "zeros of calcsize('<'+last) go to the payload in the same "
            "branch that appends `last` to the decode format")
+    # the placeholders have exactly the requested length, whatever it is
+    # (a datagram carries up to 1472 bytes)
+    evp = Evaluator(repo, f._module)
+    fails = []
+    nph = 0
+    for st_ in walk_no_nested(f):
+        if not (isinstance(st_, ast.AugAssign) and unparse(st_.target)
+                == "out"):
+            continue
+        facts = path_facts(st_)
+        if any(t_ and match("isinstance(data, int)", e_) is not None
+               for e_, t_ in facts):
+            nph += 1
+            for n_ in (0, 1, 7, 1024, 1025, 1472):
+                try:
+                    v_ = evp.eval(st_.value, {"data": n_, "args": ()})
+                except (Unknown, Raised) as e:
+                    fails.append(f"`{unparse(st_.value)[:40]}`: {e}")
+                    break
+                if not isinstance(v_, (bytes, bytearray)) or len(v_) != n_ \
+                        or any(v_):
+                    fails.append(f"`{unparse(st_.value)[:40]}` for {n_} "
+                                 f"bytes gives {len(v_) if hasattr(v_, '__len__') else v_!r}")
+                    break
+        elif find("calcsize($x)", st_.value):
+            nph += 1
+            for n_ in (1, 2, 1024, 1025, 1400):
+                try:
+                    v_ = evp.eval(st_.value, {"data": None,
+                                              "args": ("H", 5, f"{n_}s")})
+                except (Unknown, Raised) as e:
+                    fails.append(f"`{unparse(st_.value)[:40]}`: {e}")
+                    break
+                if not isinstance(v_, (bytes, bytearray)) or len(v_) != n_ \
+                        or any(v_):
+                    fails.append(f"`{unparse(st_.value)[:40]}` for a "
+                                 f"{n_}-byte field gives "
+                                 f"{len(v_) if hasattr(v_, '__len__') else v_!r}")
+                    break
+    if nph:
+        chk.ob("R13.1", SYM, "placeholders for data to be read have exactly "
+           "the requested length", not fails, f, "; ".join(fails[:3]) or
+           "tabulated up to 1472 bytes: a shorter placeholder makes the "
+           "terminal return fewer bytes than asked for")
     # payload order: formatted part first, raw data after
     outs = [s for s in walk_no_nested(f) if isinstance(s, (
         ast.Assign, ast.AugAssign)) and unparse(
